@@ -9,7 +9,7 @@ HERE = os.path.dirname(os.path.abspath(__file__))
 # id -> (level category, level text, level note, technique, design ref)
 CLAIMS = {
  "C08": ("other",
-   "Exhaustive static obligation per site: every unsafe.Pointer reinterpretation in the package (48 on the pinned tree, found on the SSA form by type, not by text) must be narrowing (sizeof view <= sizeof source) and a field-by-field layout prefix (offset, type, jsonld term, name; Items/OrderedItems is the one allowed renaming) on all 14 gc architectures; any other use of package unsafe fails. This is the property's own static formulation ('a static obligation per site'), so the check decides the property for all sites and layouts. Claimed at level 'other' (not 'proof') because the two known widening findings at ToOrderedCollectionPage leave 2 of 88 obligations undischarged on the current tree.",
+   "Exhaustive static obligation per site: every unsafe.Pointer reinterpretation in the package (48 on the pinned tree, found on the SSA form by type, not by text) must be narrowing (sizeof view <= sizeof source) and a field-by-field layout prefix (offset, type, jsonld term, name; Items/OrderedItems is the one allowed renaming) on all 14 gc architectures; an interface-typed field must have the IDENTICAL type in source and view (a value stored through a field of one named interface type and read through a field of another keeps the other type's method table, so type assertions and == on it deny its dynamic type); any other use of package unsafe fails. This is the property's own static formulation ('a static obligation per site'), so the check decides the property for all sites and layouts. Claimed at level 'other' (not 'proof') because the two known widening findings at ToOrderedCollectionPage leave 2 of 88 obligations undischarged on the current tree.",
    "Trusted: go/types layout model types.SizesFor(gc, arch) agreeing with the compiler; go/ssa builder; the reflect.ConvertibleTo fallback converts only between identical underlying struct types (not re-verified).",
    "layout-prefix check over all unsafe.Pointer conversion sites (go/ssa + go/types.Sizes)", "3/C08"),
  "C15": ("other",
@@ -49,27 +49,27 @@ CLAIMS = {
    "Trusted: go/types method sets, go/ssa, prov.go.",
    "sibling agreement + dominance of the Contains guard over the append (SSA/CFG)", "3/C13"),
  "C14": ("other",
-   "Decides the insensitivity clauses structurally over every read of a parsed URL's component in the closure of IRI.Equals: scheme/host/path meet only in strings.EqualFold (path after cleaning) or against constants, never case-sensitively against each other; the scheme comparison and the scheme stripping are guarded by the checkScheme flag with the right polarity; fragment and raw query are never read; the fast path folds case and cuts the fragment; IRIs.Contains decides through IRI.Equals. NOT decided: that the relation is an equivalence (symmetry fails on the pinned tree for repeated query keys: a one-directional multiset inclusion that no structural rule separates from a correct one without false alarms), fast-path/URL-path agreement on all inputs.",
-   "Trusted: go/ssa, net/url field semantics, strings.EqualFold.",
-   "use-site classification of url.URL component reads + flag-guard dominance (SSA)", "3/C14"),
+   "Decides the insensitivity clauses structurally over every read of a parsed URL's component in the closure of IRI.Equals: scheme/host/path meet only in strings.EqualFold (path after cleaning) or against constants, never case-sensitively against each other; the scheme comparison and the scheme stripping are guarded by the checkScheme flag with the right polarity; fragment and raw query are never read; the fast path folds case and cuts the fragment; IRIs.Contains decides through IRI.Equals. NOT decided: that the relation is an equivalence (symmetry fails on the pinned tree for repeated query keys: a one-directional multiset inclusion that no structural rule separates from a correct one without false alarms), fast-path/URL-path agreement on all inputs. ADDED: (sym/refl) irisEqual and IRI.Equals are executed symbolically into decision trees over per-operand atoms and symmetric relational atoms; every pair of leaves that is consistent after exchanging the operands returns the same result (symmetry on arbitrary strings, validity guards included) and every leaf consistent with identical operands returns true (reflexivity); (components) host (with port — URL.Hostname()/Port() are findings), path and parsed query of both operands are compared; (query) the values of a repeated key are compared completely as multisets (sorted position by position or counted), never by a one-directional lookup nest; (fastpath) the strings of the fast path are the operands cut at the fragment/scheme delimiter and nothing else.",
+   "Trusted: go/ssa, net/url field semantics, strings.EqualFold is symmetric and reflexive.",
+   "use-site classification of url.URL component reads + flag-guard dominance + symbolic decision-tree comparison of the two argument orders (SSA)", "3/C14, 8.4"),
  "C16": ("other",
-   "Decides the structural clauses of flattening: each of the fifteen flattened properties is reassigned from a flattener applied to that same property of the same value; no other vocabulary-struct property is written in the flattening closures; every flattener that can replace an item by its identifier does so only under both an is-object test and a non-empty-id test. NOT decided: index alignment of the list variant with the de-duplicated copy, idempotence, value equality of the produced IRI.",
+   "Decides the structural clauses of flattening: each of the fifteen flattened properties is reassigned from a flattener applied to that same property of the same value; no other vocabulary-struct property is written in the flattening closures; every flattener that can replace an item by its identifier does so only under both an is-object test and a non-empty-id test. NOT decided: index alignment of the list variant with the de-duplicated copy, idempotence, value equality of the produced IRI. ADDED: (align) a flattener that overwrites list members position by position takes the position from a loop over that very list (overwriting col[k] with k running over the de-duplicated copy silently assumes index alignment).",
    "Trusted: go/ssa, prov.go.",
-   "field-assignment pairing + write-frame scan + guard dominance (SSA)", "3/C16"),
+   "field-assignment pairing + write-frame scan + guard dominance + positional-overwrite alignment rule (SSA)", "3/C16, 8.4"),
  "C17": ("proof",
-   "Proves the comparator has the key form less(a,b) = After(key(a), key(b)) with key = later of published/updated (the two key slices are isomorphic under renaming the parameter and each depends on one parameter only) and, by abstract interpretation, that nil (untyped and typed) ranks before any object and never after; a comparator of this form is a strict weak order whenever After is one on instants, so every clause of the property follows. 8 obligations, all discharged.",
+   "Proves the comparator has the key form less(a,b) = After(key(a), key(b)) with key = later of published/updated (the two key slices are isomorphic under renaming the parameter and each depends on one parameter only) and, by abstract interpretation, that nil (untyped and typed) ranks before any object and never after; a comparator of this form is a strict weak order whenever After is one on instants, so every clause of the property follows. 8 obligations, all discharged. ADDED: (paths) apart from the key comparison every return depends only on nil / conversion-error tests of the operands — an identity or Equals shortcut makes the relation depend on something that is not the key.",
    "Assumes time.Time.After is a strict weak order on instants. Trusted: go/ssa, the abstract interpreter for the nil cases.",
-   "slice isomorphism / key-form proof on SSA + abstract interpretation of nil cases", "3/C17"),
+   "slice isomorphism / key-form proof on SSA + every-return-path rule + abstract interpretation of nil cases", "3/C17, 8.4"),
  "C18": ("other",
-   "Decides the structural clauses of the merge: by abstract interpretation CopyItemProperties returns an error without reaching any merge function for nil/typed-nil operands, for ids forced different and for type names forced different, and the dispatcher refuses unsupported types; every store to.f in the merge functions is fed from from.f of the same f, is not on the unset side of a test of from.f, and replace-if helpers return the old value only where the new one is unset (struct helpers must not replace wholesale on a cross-comparison); each merged property listed in the statement has such a store; nothing is written through from. NOT decided: the 2^n set/unset combinations on concrete values.",
+   "Decides the structural clauses of the merge: by abstract interpretation CopyItemProperties returns an error without reaching any merge function for nil/typed-nil operands, for ids forced different and for type names forced different, and the dispatcher refuses unsupported types; every store to.f in the merge functions is fed from from.f of the same f, is not on the unset side of a test of from.f, and replace-if helpers return the old value only where the new one is unset (struct helpers must not replace wholesale on a cross-comparison); each merged property listed in the statement has such a store; nothing is written through from. NOT decided: the 2^n set/unset combinations on concrete values. ADDED: (reach) CopyItemProperties and the dispatcher never return a nil error on a path on which no merge function was called.",
    "Trusted: go/ssa, prov.go, the abstract interpreter.",
-   "abstract interpretation of refusal paths + field-assignment pairing and guard polarity (SSA)", "3/C18"),
+   "abstract interpretation of refusal paths + field-assignment pairing and guard polarity + must-pass-through of the merge call before a success return (SSA)", "3/C18, 8.4"),
  "C09": ("other",
-   "Decides the structural clauses of item equality: every property of the object core other than media type and source (and actor/target/result/origin/instrument, object for activities) is compared between the two operands in the closure of the Equals methods; by abstract interpretation, forcing the id-equivalence test or the case-insensitive type test to fail makes Object.Equals constantly false and forcing Object.Equals false makes every other object type's Equals constantly false; ItemsEqual on two non-nil values of the same concrete type is never constantly false for any of the 14 types (a constantly-false dispatch breaks reflexivity for the whole type), nil-like operands are decided by C20; list equalities do not have the all-pairs loop shape. NOT decided: reflexivity/symmetry over all values (lists with id-less members), termination of the swap recursion.",
+   "Decides the structural clauses of item equality: every property of the object core other than media type and source (and actor/target/result/origin/instrument, object for activities) is compared between the two operands in the closure of the Equals methods; by abstract interpretation, forcing the id-equivalence test or the case-insensitive type test to fail makes Object.Equals constantly false and forcing Object.Equals false makes every other object type's Equals constantly false; ItemsEqual on two non-nil values of the same concrete type is never constantly false for any of the 14 types (a constantly-false dispatch breaks reflexivity for the whole type), nil-like operands are decided by C20; list equalities do not have the all-pairs loop shape. NOT decided: reflexivity/symmetry over all values (lists with id-less members), termination of the swap recursion. ADDED: (pair) every comparison inside an Equals method relates the same property of the two operands; (forms) each type predicate lists the value form of a struct iff it lists the pointer form; (member) list equality looks members up by themselves, not by their IRI; (dispatch) over all 34 dynamic item kinds incl. the list types; termination of the operand swap is C04.swap.",
    "Trusted: go/ssa, prov.go, the abstract interpreter.",
-   "field-comparison coverage on SSA + abstract interpretation with forced comparison results", "3/C09"),
+   "field-comparison coverage and pairing on SSA + abstract interpretation with forced comparison results over all 34 dynamic item kinds + type-predicate form agreement + swap-guard antisymmetry (C04.swap)", "3/C09, 8.4"),
  "C19": ("other",
-   "Decides the structural clauses of the language-value containers: LangRefValue.Equals compares tag and text of both operands and is false when either differs (abstract interpretation with the comparison forced false); the list equality decides through it and does not have the all-pairs loop shape; Get returns a text only under 'entry tag == requested tag'; Set overwrites in place only under that test and appends only on the not-found side; Count is the receiver's length; First returns the front element. NOT decided: operation histories, equality for lists with repeated tags.",
+   "Decides the structural clauses of the language-value containers: LangRefValue.Equals compares tag and text of both operands and is false when either differs (abstract interpretation with the comparison forced false); the list equality decides through it and does not have the all-pairs loop shape; Get returns a text only under 'entry tag == requested tag'; Set overwrites in place only under that test and appends only on the not-found side; Count is the receiver's length; First returns the front element. NOT decided: operation histories, equality for lists with repeated tags. ADDED: Set overwrites the FIRST entry with the tag (either every match, or an early exit from a forward scan), and appends only when nothing was overwritten.",
    "Trusted: go/ssa, prov.go.",
    "guard-dominance and loop-shape rules on SSA", "3/C19"),
  "C12": ("other",
